@@ -84,6 +84,16 @@ int memcmp(const void *a, const void *b, size_t n)
 }
 #endif
 
+#if defined(VERIF_CBMC) && !defined(VERIF_NO_ALIGNED_ALLOC_STUB)
+/* CBMC has no model of aligned_alloc: alignment is irrelevant to its memory model */
+#include <stdlib.h>
+void *aligned_alloc(size_t alignment, size_t n)
+{
+	(void)alignment;
+	return malloc(n);
+}
+#endif
+
 #if defined(VERIF_CBMC) && defined(VERIF_NO_REALLOC)
 /* dynamic-array growth cut: the assertion proves growth is not needed inside
  * the harness bounds, the assumption prunes the path */
